@@ -462,7 +462,7 @@ func main() {
 								}
 								okSeen += ok
 								if k != "" {
-									s.Fail(fmt.Sprintf("%s %s %s updates=%v masks=%v streams=%d", k, se.Name, t.noun, c.Updates, c.Masks, c.Streams), m, c)
+									s.Fail(fmt.Sprintf("%s %s %s", k, se.Name, t.noun), m+fmt.Sprintf(" (updates=%v masks=%v streams=%d)", c.Updates, c.Masks, c.Streams), c)
 								}
 								s.State(fmt.Sprint(se.Name, t.noun, c.Masks, streams, n))
 								if ok > 0 {
